@@ -464,6 +464,30 @@ def worker(rec, shard, nshards, thorough, seed):
                               got=[(x.get("ec_row"), x.get("ec_column")) for x in issues if x["code"] == "TAG_EXTENDED"])
                 break
         rec.outcome("headerless-sheet")
+    # F9 the same two cells in swapped columns: which column holds the failing cell does not change what the row reports
+    k9 = ["tag", "unknown", "reptag", "badgroup", "onset", "offset", "ext"]
+    # (two temporal markers in one row are excluded: their order in the row is the order of the history, C10)
+    swap_cases = [(a, b, ons) for a in k9 for b in k9 if a < b and not {a, b} <= {"onset", "offset"} for ons in (None, [10])]
+    for ci in core.shard_order(len(swap_cases), shard, nshards, seed):
+        a, b, ons = swap_cases[ci]
+        res = []
+        for cells in ((a, b), (b, a)):
+            tsv, sj = build_file([cells], ("c1", "c2"), ons)
+            rec.n("evaluations")
+            rec.n("transitions")
+            rec.n("distinct_nontrivial")
+            try:
+                issues = validate_file(env, tsv, sj)
+            except Exception as e:
+                rec.violation(f"C07:raises:{type(e).__name__}:F9", file=tsv, error=repr(e)[:300])
+                res = None
+                break
+            res.append((tsv, sorted(i["code"] for i in issues if i["severity"] == ERR)))
+        rec.state(("F9", a, b, ons is not None))
+        if res and res[0][1] != res[1][1]:
+            rec.violation("C07:row-codes-depend-on-which-column-holds-the-failing-cell", file=res[0][0], swapped=res[1][0],
+                          codes=res[0][1], codes_swapped=res[1][1])
+        rec.outcome("swap")
     # F4 unit spellings of Delay / Duration groups
     spell_cases = []
     for sp in UNIT_SPELLINGS:
